@@ -171,9 +171,13 @@ def const_array(shape, val, label="const"):
 class Obj:
     """instance of a class defined in the repository (fields are concrete references / symbolic values)"""
 
+    _n = 0  # creation counter (loop frame checks tell objects that existed at loop entry from those made in the body)
+
     def __init__(self, cls):
         self.cls = cls
         self.fields = {}
+        Obj._n += 1
+        self.serial = Obj._n
 
     def __repr__(self):
         return f"<Obj {self.cls.name} {list(self.fields)}>"
